@@ -92,6 +92,7 @@ var vfStormKinds = []string{ //nolint:gochecknoglobals
 // call wraps one API call: bookkeeping of what is in flight and what never returned.
 func (st *vfStorm) call(kind int, desc string, f func()) {
 	id := st.callID.Add(1)
+	vfProgress.Add(1)
 	st.open.Store(id, vfStormKinds[kind]+" "+desc)
 	st.inflight[kind].Add(1)
 	st.calls[kind].Add(1)
